@@ -101,12 +101,12 @@ def run_reader_cleanliness(chk, F, fs, rule="R2.clean", groups=(None,), keys=Non
                        detail={"fn": b["path"], "cfg": "u%d" % w, "buffer": mir.fmt(bad_path.mem.get(BUF, BUF))[:200] if bad_path else None})
 
 
-def run_writer_layout(chk, F, fs, rule="W4.layout"):
+def run_writer_layout(chk, F, fs, rule="W4.layout", names=("write_bits", "write_unary", "flush_be", "flush_le"), groups=(None,)):
     """writer: every OR that builds the buffer / a delivered word combines disjoint ranges (the masked argument occupies exactly the
     n freed positions, so dirty high bits of the argument are ignored); flush pads with zeros"""
     for spec in rn.writer_specs():
         nm = spec.key.split(".")[-1]
-        if nm not in ("write_bits", "write_unary", "flush_be", "flush_le") or spec.group is not None:
+        if nm not in names or spec.group not in groups:
             continue
         e = "be" if (".be." in spec.key or spec.key.endswith("flush_be")) else "le"
         base_arg = spec.self_base
@@ -157,3 +157,48 @@ def run_writer_layout(chk, F, fs, rule="W4.layout"):
                 chk.expect(rule, key + "|padding", pad_ok,
                            "%s, word u%d: the flushed word may carry non-zero bits in its %d..space_left padding positions" % (b["path"], w, 0),
                            detail={"fn": b["path"], "cfg": "u%d" % w, "word": mir.fmt(bad[1])[:300] if bad else None})
+
+
+def run_clean_writes(chk, F, fs, specs, rule="G1.clean"):
+    """under the `checks` feature: at every write_bits(v, n) issued by library code, v has no set bit at or above position n
+    (so the argument check can never fire on an in-domain library call)"""
+    for spec in specs:
+        for w in spec.widths:
+            wk, paths, b = analyse_paths(F, spec, w)
+            num = wk.num
+            sites = {}
+            for p in paths:
+                basec = wk.full_store(p.state)
+                if not lp.feasible_cached(basec):
+                    continue
+                num.ctx_events = p.state["events"]
+                entry = {}
+                if spec.key.startswith("reader."):
+                    e = spec.key.split(".")[1]
+                    b0 = num.aff(BITS)
+                    entry = {BUF: (const(2 * w) - b0, const(2 * w)) if e == "be" else (const(0), b0)}
+                R = br.Ranges(num, basec, entry)
+                for ev in p.calls():
+                    if ev[1] != "traits::bits::BitWrite::write_bits":
+                        continue
+                    v, n = ev[8][1], num.aff(ev[8][2])
+                    ok = n is not None and R.within(R.rng(v), hi=n)
+                    s = sites.setdefault(ev[5], {"ok": True, "v": None})
+                    if not ok and s["ok"]:
+                        s["ok"] = False
+                        s["v"] = (v, ev[8][2], p)
+            lemmas = rn.load_lemmas()
+            for i, (line, s) in enumerate(sorted(sites.items(), key=lambda kv: kv[0] or 0)):
+                key = "%s@u%d@%s|write_bits#%d" % (spec.key, w, fs, i)
+                if not s["ok"]:
+                    lem = [l for l in lemmas if l[1].search(spec.key) and l[2].search("G1|write_bits#%d" % i)]
+                    if lem:
+                        chk.assume("lemma %s: %s" % (lem[0][0], lem[0][3]))
+                        chk.extra.setdefault("lemmas_used", {}).setdefault(lem[0][0], []).append(key)
+                        continue
+                chk.expect(rule, key, s["ok"],
+                           "%s, word u%d [features %s]: a write_bits issued by the library may carry set bits at or above the requested width "
+                           "(value %s, width %s): with `checks` the argument assertion can fire on an in-domain call (source line %s)"
+                           % (b["path"], w, fs, mir.fmt(s["v"][0])[:120] if s["v"] else "", mir.fmt(s["v"][1])[:40] if s["v"] else "", line),
+                           detail={"fn": b["path"], "cfg": "u%d" % w, "features": fs, "value": mir.fmt(s["v"][0])[:300] if s["v"] else None},
+                           sample={"fn": spec.key, "cfg": "u%d" % w, "site": i} if w == 64 else None)
